@@ -359,3 +359,27 @@ Definition gate_ok (g : gate) : bool :=
   && flag_ok (g_isunitary g)
        (gmat_eqb (g_n g) (gmatmul (g_n g) (g_mat g) (gdag (g_n g) (g_mat g)))
                  (gscaled_id (g_n g) (g_scale g * g_scale g))).
+
+(* ------------------------------------------------ gates.py hadamard_transform
+     _hamming_distance(x):  tot = 0;  while x: tot += 1; x &= x - 1;  return tot
+     data[j][i] = 2**(-N/2) * (-1) ** _hamming_distance(i & j),  i, j < 2**N
+   The model keeps the sign (-1)^.. as an integer; the common factor 2^(-N/2)
+   is compared exactly by the harness. *)
+Fixpoint hamming_loop (fuel : nat) (x : N) : nat :=
+  match fuel with
+  | O => O
+  | S f => if N.eqb x 0 then O else S (hamming_loop f (N.land x (N.pred x)))
+  end.
+(* the loop runs at most (number of bits of x) times *)
+Definition hamming_distance (x : N) : nat := hamming_loop (N.to_nat (N.size x)) x.
+Definition sgn (k : nat) : Z := if Nat.even k then 1 else -1.
+Definition hadamard_sign (i j : N) : Z := sgn (hamming_distance (N.land i j)).
+
+(* definition-level meaning: the n-fold tensor power of H1 = [[1,1],[1,-1]],
+   last qubit = least significant bit *)
+Definition h1 (a b : N) : Z := if N.odd a && N.odd b then -1 else 1.
+Fixpoint hpow (n : nat) (i j : N) : Z :=
+  match n with
+  | O => 1
+  | S m => hpow m (N.div2 i) (N.div2 j) * h1 i j
+  end.
